@@ -141,4 +141,35 @@ FailedST(c, s) ==
          [] x = "CyclesInLoops" -> ST_CyclesInLoops(c, s)
          [] x = "BranchAtHead" -> ST_BranchAtHead(s)
          [] x = "HeadBranchTail" -> ST_HeadBranchTail(s)}
+
+(***************************** C16 iteration / view ************************)
+IsPerm(seq, S) == Len(seq) = Cardinality(S) /\ SeqSet(seq) = S
+HeadsOf(H, l) == LET Lv == Level(H, l) IN {h \in Lv : \A u \in Lv : h \notin SeqSet(Fwd(H[u]))}
+\* iterating a graph yields every block and region of the whole hierarchy exactly once, head first
+IT_Complete(seq, s)  == SeqSet(seq) = DOMAIN s.H
+IT_Once(seq, s)      == NoDupSeq(seq)
+IT_HeadFirst(seq, s) == Len(seq) > 0 /\ HeadsOf(s.H, s.root) = {seq[1]}
+\* the region-concealing view of level l: exactly that level's own items, each once, head first,
+\* every other item after at least one of its predecessors (a region continues at its declared targets)
+VW_Complete(seq, l, s)  == SeqSet(seq) = Level(s.H, l)
+VW_Once(seq, l, s)      == NoDupSeq(seq)
+VW_HeadFirst(seq, l, s) == Len(seq) > 0 /\ HeadsOf(s.H, l) = {seq[1]}
+VW_AfterPred(seq, l, s) == \A j \in 2..Len(seq) : seq[j] \in DOMAIN s.H =>
+                              \E i \in 1..(j-1) : seq[i] \in DOMAIN s.H /\ seq[j] \in SeqSet(Fwd(s.H[seq[i]]))
+\* hk = [iter, iterexc, views : level -> seq, viewexc : level -> string]
+FailedViews(hk, s) ==
+  (IF hk.iterexc # "" THEN {"IterRaises"} ELSE
+     {c \in {"IterComplete", "IterOnce", "IterHeadFirst"} :
+        ~ CASE c = "IterComplete" -> IT_Complete(hk.iter, s)
+            [] c = "IterOnce" -> IT_Once(hk.iter, s)
+            [] c = "IterHeadFirst" -> IT_HeadFirst(hk.iter, s)})
+  \cup (IF DOMAIN hk.views # {s.root} \cup Regions(s.H) THEN {"MACHINERY-views-not-recorded-for-every-level"} ELSE {})
+  \cup UNION {
+        IF hk.viewexc[l] # "" THEN {"ViewRaises"} ELSE
+        {c \in {"ViewComplete", "ViewOnce", "ViewHeadFirst", "ViewAfterPred"} :
+           ~ CASE c = "ViewComplete" -> VW_Complete(hk.views[l], l, s)
+               [] c = "ViewOnce" -> VW_Once(hk.views[l], l, s)
+               [] c = "ViewHeadFirst" -> VW_HeadFirst(hk.views[l], l, s)
+               [] c = "ViewAfterPred" -> VW_AfterPred(hk.views[l], l, s)}
+        : l \in DOMAIN hk.views}
 =============================================================================
